@@ -246,6 +246,7 @@ func c10Scenario() *Scenario {
 	s.Actions = streamActions(time.Second)
 	s.Actions = append(s.Actions,
 		Action{Name: "send(A->escrow,5nund)", Dt: time.Second, Txs: tx1(model.Msg{Kind: model.BankSend, From: "A", To: model.ModStr, Den: mc.Nund, Amt: "5"})},
+		Action{Name: "create(A->STREAM-ESCROW,upper-case spelling)", Dt: time.Second, Txs: tx1(model.Msg{Kind: model.StrCreate, From: "A", To: model.ModStr, Den: mc.Nund, Amt: "90", Rate: 1, Up: true})},
 		// a receiver whose address is not 20 bytes long (module-derived, group-policy, interchain accounts)
 		Action{Name: "create(B->L32:M,90nund@1)", Dt: time.Second, Txs: tx1(model.Msg{Kind: model.StrCreate, From: "B", To: "L32:M", Den: mc.Nund, Amt: "90", Rate: 1})},
 		Action{Name: "cancel(B->L32:M)", Dt: time.Second, Txs: tx1(model.Msg{Kind: model.StrCancel, From: "B", To: "L32:M"})},
@@ -291,7 +292,7 @@ func init() {
 			}}},
 			// escrow backing at block boundaries, conservation / fee split / ledger from observed movements, registered invariant,
 			// and no transfer into the escrow account
-			Owns:        ownsAny("str.escrow", "str.conserve", "str.feesplit", "str.ledger", "invariant:stream", "tx.accept_unexpected:bank.send:blocked_recipient"),
+			Owns:        ownsAny("str.escrow", "str.conserve", "str.feesplit", "str.ledger", "invariant:stream", "tx.accept_unexpected:bank.send:blocked_recipient", "tx.accept_unexpected:str.create:blocked_recipient"),
 			Assumptions: []string{"Cosmos-SDK bank/auth/gov semantics are the trusted substrate", "bounds: alphabet and depth as listed in coverage.scenarios", "transactions carry zero fees, so the fee collector's delta inside a transaction is the validator fee"},
 		}
 	}
